@@ -282,10 +282,10 @@ func drawOp07(t *rapid.T, faults bool) *op07 {
 		o.Fn = "Parse"
 		o.OnlyOne = sim.Bool(t, "onlyone")
 	case "pkg.oj":
-		o.Fn = []string{"Parse", "ParseString", "Load"}[sim.Intn(t, 3, "fn")]
+		o.Fn = []string{"Parse", "ParseString", "Load", "Unmarshal", "MustParse"}[sim.Intn(t, 5, "fn")]
 		reader = o.Fn == "Load"
 	case "pkg.sen":
-		o.Fn = []string{"Parse", "ParseReader"}[sim.Intn(t, 2, "fn")]
+		o.Fn = []string{"Parse", "ParseReader", "Unmarshal", "MustParse"}[sim.Intn(t, 4, "fn")]
 		reader = o.Fn == "ParseReader"
 	default:
 		o.Fn = "Parse"
@@ -311,7 +311,7 @@ func drawOp07(t *rapid.T, faults bool) *op07 {
 	if reader {
 		o.Sched = sim.DrawSchedule(t, len(o.Input), nil)
 	}
-	if !strings.Contains(o.Subj, "Validator") && !strings.Contains(o.Subj, "Tokenizer") && o.Fn != "Unmarshal" {
+	if !strings.Contains(o.Subj, "Validator") && !strings.Contains(o.Subj, "Tokenizer") && o.Fn != "Unmarshal" && o.Fn != "MustParse" {
 		o.Mode = sim.Weighted(t, "mode", 4, 2, 1)
 		if o.Subj != "gen.Parser" && sim.Intn(t, 4, "conv?") == 3 {
 			o.Conv = sim.Intn(t, 3, "conv")
@@ -494,6 +494,19 @@ func (o *op07) exec(w *world07) (r *res07) {
 			var v any
 			var err error
 			switch {
+			case o.Fn == "Unmarshal" && o.Subj == "pkg.oj":
+				var out any
+				err = oj.Unmarshal(buf, &out)
+				v = out
+			case o.Fn == "MustParse":
+				func() {
+					defer func() {
+						if p := recover(); p != nil {
+							err = fmt.Errorf("%v", p)
+						}
+					}()
+					v = oj.MustParse(buf)
+				}()
 			case o.Fn == "Unmarshal":
 				var out any
 				err = w.ojP.Unmarshal(buf, &out)
@@ -532,6 +545,19 @@ func (o *op07) exec(w *world07) (r *res07) {
 			var v any
 			var err error
 			switch {
+			case o.Fn == "Unmarshal" && o.Subj == "pkg.sen":
+				var out any
+				err = sen.Unmarshal(buf, &out)
+				v = out
+			case o.Fn == "MustParse":
+				func() {
+					defer func() {
+						if p := recover(); p != nil {
+							err = fmt.Errorf("%v", p)
+						}
+					}()
+					v = sen.MustParse(buf)
+				}()
 			case o.Fn == "Unmarshal":
 				var out any
 				err = w.senP.Unmarshal(buf, &out)
